@@ -5,7 +5,7 @@ from bounded import emission, graphprops
 PROP = "C05"
 LEVEL = "exploration"
 ENGINE = "pyvc+bounded"
-HARNESS_MODULES = ['contracts.c04_graph_plumbing']
+HARNESS_MODULES = ['contracts.c04_graph_plumbing', 'contracts.c05_emission']
 EXTRA_HARNESSES = [('C04', 'grid_graph'), ('C04', 'graph_add_edge'), ('C04', 'primitive_operands_connected')]
 MOD = "props.C05"
 instantiate = graphprops.inst_C05
@@ -13,6 +13,8 @@ descs = graphprops.descs_C05
 
 
 def bounded(tier, seed, rep):
+    from bounded import leancheck
+    leancheck.check(rep, "lean/Encoders.lean", ["C05.enc_iff_spec"])
     emission.run_parallel(rep, PROP, MOD, list(graphprops.with_builds(list(descs(tier)) + graphprops.deep_descs(PROP, tier))))
 
 
